@@ -77,6 +77,10 @@ class Reader:
             return "badword"        # 'foo*/': a comment delimiter inside a bare word
         if kind == "badchar":
             o = ord(text)
+            if self.d == "default" and text == "\0":
+                # OmniGrammar: "also add the ASCII NULL to the reserved characters" -
+                # a token of its own that is neither a name nor a value
+                return "badchar"
             if self.d == "default":
                 raise Ambiguous("any character is allowed by the default grammar")
             if self.d in ODL_FAMILY and o < 128:
